@@ -40,13 +40,16 @@ class HRef(Value):
 
 
 class Frame:
-    __slots__ = ('vars', 'parent', 'self_obj', 'cls', 'fname', 'modname')
+    __slots__ = ('vars', 'parent', 'self_obj', 'cls', 'fname', 'modname', 'assigned')
 
     def __init__(self, vars, parent, self_obj, cls, fname, modname):
         self.vars, self.parent, self.self_obj, self.cls, self.fname, self.modname = vars, parent, self_obj, cls, fname, modname
+        self.assigned = ()
 
     def copy(self):
-        return Frame(dict(self.vars), self.parent, self.self_obj, self.cls, self.fname, self.modname)
+        f = Frame(dict(self.vars), self.parent, self.self_obj, self.cls, self.fname, self.modname)
+        f.assigned = self.assigned
+        return f
 
 
 class Ctx:
@@ -146,6 +149,17 @@ def is_logging_call(call):
     if isinstance(v, ast.Name) and v.id in ('logger', 'default_logger'):
         return True
     return False
+
+
+def assigned_names(fn):
+    """names that some statement of the function binds (its locals, besides the parameters)"""
+    out = set()
+    for n in ast.walk(fn):
+        if isinstance(n, ast.Name) and isinstance(n.ctx, ast.Store):
+            out.add(n.id)
+        elif isinstance(n, ast.ExceptHandler) and n.name:
+            out.add(n.name)
+    return out
 
 
 class Engine:
@@ -539,6 +553,10 @@ class Engine:
             return
         v = self.ext.global_name(self, ctx, e.id)
         if v is None:
+            if e.id in getattr(ctx.frame, 'assigned', ()):
+                # a local of this function that no executed statement has bound yet
+                yield ctx, Raised(Exc('UnboundLocalError'))
+                return
             raise Unsupported('unknown name %s' % e.id)
         yield ctx, v
 
@@ -845,6 +863,11 @@ class Engine:
             n = cont.length()
             yield ctx, z3.Exists([p], z3.And(p >= 0, p < n, self.seq_at(ctx, cont, p) == kv))
             return
+        from .externals import Recorder as _RecM
+        if isinstance(cont, _RecM):
+            ctx.notes.append(('apicontains', cont.path, key))
+            yield ctx, smt.fresh('in_external', smt.B)      # membership in a container of the external object: either answer
+            return
         r = self.ext.contains(self, ctx, cont, key)
         if r is None:
             raise Unsupported('membership in %r' % (cont,))
@@ -977,6 +1000,10 @@ class Engine:
         from .externals import Recorder
         if isinstance(base, Recorder):
             ctx.notes.append(('apigetitem', base.path, key))
+            if getattr(self.ext, 'recorder_lookup_fails', False):
+                # a lookup in a container of the external object may miss: the function under proof then raises by itself
+                c_ = ctx.fork()
+                yield c_, Raised(Exc('KeyError'))
             yield ctx, Recorder(base.path + '[]')
             return
         r = self.ext.getitem(self, ctx, base, key)
@@ -1350,6 +1377,7 @@ class Engine:
                 raise
         caller = ctx.fid
         ctx.frames[fid] = Frame(vars, parent, self_obj, cls, node.name if hasattr(node, 'name') else '<lambda>', modname)
+        ctx.frames[fid].assigned = assigned_names(node)
         ctx.fid = fid
         ctx.depth += 1
         # defaults
